@@ -753,3 +753,98 @@ g3.fallback = ("From Coq Require Import List Bool Ascii String.\nFrom XV Require
                            ["_AXIS_NAME", "_AXIS_POSITION", "_AXIS_NAME_POSITION_PAIR",
                             "_AXIS_NAME_POSITION_PAIR_LIST", "_ARGUMENT", "_ARGUMENT_LIST", "_SIGNATURE"])
                + "\nDefinition gen_signature_start_anchor : bool := false.\nDefinition gen_signature_end_anchor_Z : bool := false.")
+
+
+# ---------------------------------------------------------------------------
+# G9(i): inventory of the places where an unordered collection is iterated
+
+
+SET_FILES = ["padding.py", "grid_ufunc.py", "metadata_parsers.py", "comodo.py", "sgrid.py", "metrics.py",
+             "grid.py", "axis.py", "transform.py", "gridops.py"]
+
+
+class SetSites(ast.NodeVisitor):
+    """Flags iteration over expressions that are statically set-typed: set()/frozenset()
+    calls, set displays/comprehensions, |,&,-,^ of those, and local names bound to them."""
+
+    def __init__(self, fname):
+        self.fname = fname
+        self.func = "<module>"
+        self.setnames = set()
+        self.sites = []
+
+    def is_set(self, e):
+        if isinstance(e, (ast.Set, ast.SetComp)):
+            return True
+        if isinstance(e, ast.Call) and isinstance(e.func, ast.Name) and e.func.id in ("set", "frozenset"):
+            return True
+        if isinstance(e, ast.Name) and e.id in self.setnames:
+            return True
+        if isinstance(e, ast.BinOp) and isinstance(e.op, (ast.BitOr, ast.BitAnd, ast.Sub, ast.BitXor)):
+            return self.is_set(e.left) or self.is_set(e.right)
+        if isinstance(e, ast.Call) and isinstance(e.func, ast.Attribute) and \
+                e.func.attr in ("union", "intersection", "difference", "symmetric_difference", "copy") \
+                and self.is_set(e.func.value):
+            return True
+        return False
+
+    def flag(self, kind, e):
+        self.sites.append((self.fname, self.func, kind, ast.unparse(e)[:80]))
+
+    def visit_FunctionDef(self, n):
+        saved = (self.func, set(self.setnames))
+        self.func = n.name if self.func == "<module>" else self.func + "." + n.name
+        # two passes so that names bound later in a loop body are known
+        for _ in range(2):
+            for s in ast.walk(n):
+                if isinstance(s, ast.Assign) and self.is_set(s.value):
+                    for t in s.targets:
+                        if isinstance(t, ast.Name):
+                            self.setnames.add(t.id)
+        self.generic_visit(n)
+        self.func, self.setnames = saved
+
+    def visit_For(self, n):
+        if self.is_set(n.iter):
+            self.flag("for", n.iter)
+        self.generic_visit(n)
+
+    def visit_comprehension(self, n):
+        if self.is_set(n.iter):
+            self.flag("comprehension", n.iter)
+        self.generic_visit(n)
+
+    def visit_Starred(self, n):
+        if self.is_set(n.value):
+            self.flag("star", n.value)
+        self.generic_visit(n)
+
+    def visit_Call(self, n):
+        ordered_consumers = {"list", "tuple", "zip", "enumerate", "iter", "next", "map", "reversed"}
+        f = n.func
+        name = f.id if isinstance(f, ast.Name) else (f.attr if isinstance(f, ast.Attribute) else None)
+        is_itertools = isinstance(f, ast.Attribute) and isinstance(f.value, ast.Name) and f.value.id == "itertools"
+        if name in ordered_consumers or is_itertools or name in ("join", "extend"):
+            for a in n.args:
+                if self.is_set(a):
+                    self.flag(("itertools." if is_itertools else "") + str(name), a)
+        self.generic_visit(n)
+
+
+@extractor("G9")
+def g9():
+    sites = []
+    for fname in SET_FILES:
+        v = SetSites(fname)
+        v.visit(parse(fname))
+        sites += v.sites
+    rows = [f"({cstr(a)}, {cstr(b)}, {cstr(c)}, {cstr(d)})" for a, b, c, d in sorted(set(sites))]
+    out = ["From Coq Require Import List String.", "Import ListNotations.", "Open Scope string_scope.",
+           "(* (file, function, kind of ordered consumption, set-typed expression) *)",
+           "Definition gen_set_iteration_sites : list (string * string * string * string) := " + clist(rows) + "."]
+    return "\n".join(out)
+
+
+g9.fallback = ("From Coq Require Import List String.\nImport ListNotations.\nOpen Scope string_scope.\n"
+               "Definition gen_set_iteration_sites : list (string * string * string * string) := "
+               "[(\"?\", \"?\", \"extractor unavailable\", \"?\")].")
